@@ -4,7 +4,6 @@ package main
 // then RefundManager.CheckAndMove) driven by an empty block executed with a non-"testing" situation.
 
 import (
-	"fmt"
 	"math/big"
 	"sort"
 	"strconv"
@@ -52,17 +51,28 @@ func refundAddr(h uint64) common.Address {
 func (w *World) escrowTotal() *big.Int {
 	sum := new(big.Int)
 	for h := range w.escrowHeights {
-		for _, v := range w.adb.GetAllRefund(refundAddr(h)) {
-			sum.Add(sum, v)
+		a := refundAddr(h)
+		if !w.adb.Exist(a) {
+			continue
+		}
+		// read-only walk of the committed storage (GetAllRefund would create and later delete an empty account)
+		it := w.adb.DataIterator(a, nil)
+		if it == nil {
+			continue
+		}
+		for it.Next() {
+			sum.Add(sum, new(big.Int).SetBytes(it.Value))
 		}
 	}
 	return sum
 }
 
 // After executes an empty block at height h with situation "fullverify".
-func (w *World) After(h uint64, castor []byte) {
+func (w *World) After(h uint64, castor []byte) (before, after, rewards *big.Int) {
 	curWorld = w
 	w.reopen()
+	before = w.Wealth()
+	rewards = new(big.Int)
 	header := &types.BlockHeader{Height: h, CurTime: time.Unix(1700000000+int64(h), 0), Castor: castor, GroupId: []byte{0x67}}
 	// oracle for the model: what RewardCalculator adds to the escrow for this block (same state, same call)
 	data := service.RewardCalculatorImpl.CalculateReward(h, w.adb, header, "fullverify")
@@ -76,6 +86,7 @@ func (w *World) After(h uint64, castor []byte) {
 		w.escrowHeights[eh] = true
 		for _, ri := range l.List {
 			ents = append(ents, ent{eh, common.BytesToAddress(ri.Id), new(big.Int).Set(ri.Value)})
+			rewards.Add(rewards, ri.Value)
 		}
 	}
 	sort.Slice(ents, func(i, j int) bool {
@@ -90,6 +101,7 @@ func (w *World) After(h uint64, castor []byte) {
 	}
 	w.height = h
 	common.SetBlockHeight(h)
+	w.escrowHeights[h+36000] = true
 	block := &types.Block{Header: header}
 	p := hx.Guard(func() string {
 		core.VerifC06Execute(w.adb, block, "fullverify")
@@ -97,8 +109,10 @@ func (w *World) After(h uint64, castor []byte) {
 	})
 	if p != "" {
 		w.out.Emit(strings.Join(parts, " "), p)
-		return
+		return before, before, new(big.Int)
 	}
 	w.reopen()
-	w.out.Emit(strings.Join(parts, " "), fmt.Sprintf("E=%s %s", w.escrowTotal().String(), w.stateLine()))
+	w.out.Emit(strings.Join(parts, " "), w.stateLine())
+	after = w.Wealth()
+	return
 }
